@@ -2,6 +2,7 @@
   C07  Prefix matching is exact and its three implementations agree.
 -/
 import OptreeModel.Model.Compare
+import OptreeModel.Lemmas.EncPrefix
 
 namespace Optree
 
@@ -81,5 +82,85 @@ theorem C07_dict_keyset_mismatch (reg : Registry) (nil : Bool) (ns : String) (n 
     flattenUpToGo reg nil ns n (node :: nodes) (.odict kvs :: agenda) acc = .error .value ∧
     flattenUpToGo reg nil ns n (node :: nodes) (.ddict Option.none kvs :: agenda) acc = .error .value := by
   simp [flattenUpToGo, hk, dictItems?, hne]
+
+/-! ### refinement: the array walk of `IsPrefix` decides the tree-level prefix relation
+
+`STree.prefixB` (Model/STree.lean) is the relation the property describes, as a structural
+recursion over shapes: a leaf is a prefix of anything; a `None` / tuple / list / deque node matches a
+node of the same kind and arity (whatever the deque's `maxlen`); namedtuple / struct-sequence /
+custom nodes additionally need the same class / metadata and the same registration; the three dict
+kinds match one another when their key *sets* agree, the children being paired **by key**.
+`STree.sameB` says that no leaf of the first sits over an internal node of the second. -/
+
+/-- **`is_prefix` / `<=` / `<` on treespecs decide exactly the tree-level prefix relation**, for all
+well-formed shapes of any size, any nesting of dict nodes whose key orders differ, and any
+`none_is_leaf` / namespace combination.  (Pinned tree before `fix: 077e6b2`: false — nested
+re-orderings with unequal sub-tree sizes.) -/
+theorem C07_is_prefix_refines (a b : STree) (ha : a.wf = true) (hb : b.wf = true)
+    (nil nil' : Bool) (ns ns' : String) (strict : Bool) :
+    isPrefix (a.spec nil ns) (b.spec nil' ns') strict =
+      .ok (nil == nil' && nsCompatible ns ns' && a.prefixB b && (!strict || !a.sameB b)) := by
+  unfold isPrefix
+  simp only [STree.spec_sane, Bool.not_true, Bool.or_self, Bool.false_eq_true, if_false,
+    STree.spec_numNodes]
+  simp only [STree.spec]
+  by_cases hn : nil = nil'
+  · subst hn
+    simp only [bne_self_eq_false, Bool.false_eq_true, if_false, beq_self_eq_true, Bool.true_and]
+    by_cases hc : nsCompatible ns ns' = true
+    · simp only [hc, Bool.not_true, Bool.false_eq_true, if_false, Bool.true_and]
+      have hgo := isPrefixGo_enc strict a ha b hb [] [] true
+      simp only [List.append_nil, STree.renc] at hgo
+      by_cases hp : a.prefixB b = true
+      · have hsz := STree.prefixB_size a ha b hb hp
+        have hng : ¬ (a.size > b.size) := by omega
+        simp only [hng, if_false, hgo, hp, if_true, Bool.true_and, isPrefixGo, List.isEmpty_nil,
+          Bool.not_true, Bool.false_eq_true]
+      · simp only [hgo, hp, Bool.false_eq_true, if_false, Bool.false_and, ite_self]
+    · simp [hc]
+  · simp [hn]
+
+/-- non-strict form: `a <= b` / `a.is_prefix(b)` -/
+theorem C07_is_prefix_iff (a b : STree) (ha : a.wf = true) (hb : b.wf = true) (nil : Bool)
+    (ns : String) :
+    isPrefix (a.spec nil ns) (b.spec nil ns) false = .ok (a.prefixB b) := by
+  rw [C07_is_prefix_refines a b ha hb]
+  simp [nsCompatible]
+
+/-- strict form: `a < b` iff `a` is a prefix of `b` and some leaf of `a` covers an internal node -/
+theorem C07_is_prefix_strict_iff (a b : STree) (ha : a.wf = true) (hb : b.wf = true) (nil : Bool)
+    (ns : String) :
+    isPrefix (a.spec nil ns) (b.spec nil ns) true = .ok (a.prefixB b && !a.sameB b) := by
+  rw [C07_is_prefix_refines a b ha hb]
+  simp [nsCompatible]
+
+/-- the walk never raises (no `InternalError`) on encodings of well-formed shapes -/
+theorem C07_is_prefix_total (a b : STree) (ha : a.wf = true) (hb : b.wf = true)
+    (nil nil' : Bool) (ns ns' : String) (strict : Bool) :
+    ∃ r, isPrefix (a.spec nil ns) (b.spec nil' ns') strict = .ok r :=
+  ⟨_, C07_is_prefix_refines a b ha hb nil nil' ns ns' strict⟩
+
+/-- a prefix never has more nodes (so the size guard of `IsPrefix` never changes the answer) -/
+theorem C07_prefix_not_larger (a b : STree) (ha : a.wf = true) (hb : b.wf = true)
+    (h : a.prefixB b = true) : a.size ≤ b.size := STree.prefixB_size a ha b hb h
+
+/-- non-vacuity, on the witness of the repaired defect: `OD(a=OD(x=*,y=*), b=*)` is a prefix of
+`OD(b=*, a=OD(y=(*,), x=*))` (outer and inner dict both re-ordered, unequal sub-tree sizes) -/
+def C07_witnessA : STree :=
+  .node ⟨.ordereddict, .keys [.str "a", .str "b"], Option.none, Option.none, Option.none⟩
+    [.node ⟨.ordereddict, .keys [.str "x", .str "y"], Option.none, Option.none, Option.none⟩
+      [.leaf, .leaf], .leaf]
+def C07_witnessB : STree :=
+  .node ⟨.ordereddict, .keys [.str "b", .str "a"], Option.none, Option.none, Option.none⟩
+    [.leaf, .node ⟨.ordereddict, .keys [.str "y", .str "x"], Option.none, Option.none, Option.none⟩
+      [.node ⟨.tuple, .none, Option.none, Option.none, Option.none⟩ [.leaf], .leaf]]
+
+example : C07_witnessA.wf = true ∧ C07_witnessB.wf = true ∧
+    C07_witnessA.prefixB C07_witnessB = true ∧ C07_witnessA.sameB C07_witnessB = false := by
+  decide
+
+example : isPrefix (C07_witnessA.spec false "") (C07_witnessB.spec false "") true = .ok true := by
+  rw [C07_is_prefix_strict_iff _ _ (by decide) (by decide)]
+  exact congrArg _ (by decide)
 
 end Optree
